@@ -37,6 +37,7 @@ RULE = (
     "in-memory result), user-caused failures end non-zero with a message and leave no output file.  "
     "Non-trivial: strings one token away from valid bounds; failure cases; tables with misses."
     ' Also: sources whose coordinates use 1e35 fill values and packed variables, GeoJSON strings longer than a file name, tables with identical rows and completely blank rows; clip with a zero-width box, a self-crossing ring and a box 2^-22 inside one cell (as bounds, GeoJSON string and GeoJSON file), the verdict of the library call (result or refusal) being the oracle; export-geometry with an explicit format against every extension another format owns, dotted stems (grid.v2.shp), bare and relative output names, and the exact set of files created.'
+    " Second phase: the first case of every distinct outcome and kind (thorough: every case, for expensive checks every kind) again with debug logging enabled, under numpy.errstate(all='ignore'), and in python -O child interpreters."
 )
 LEVEL_TEXT = ("the complete bounds-string product over a 14-numeral palette, and every (command, dataset, input variant) of "
               "the stated product run through the real argument parser and handlers, compared with direct library calls")
@@ -56,6 +57,7 @@ def bounds(tier):
             'grammar_strings': 'all' if tier == 'thorough' else 'each field varied against a valid rest'}
 
 
+CLIP_SLICES = 4
 DATASETS = [
     {'family': 'cf1d', 'ny': 3, 'nx': 4, 'ints': True},
     {'family': 'cf2d', 'ny': 3, 'nx': 3, 'geometry': 'skew', 'holes': 'corner'},
@@ -63,6 +65,19 @@ DATASETS = [
     {'family': 'shoc_standard', 'nj': 3, 'ni': 3, 'ints': True, 'dry': 'corner'},
     {'family': 'ugrid', 'mesh': 'M7', 'supplied': ['edge_node'], 'ints': True},
 ]
+
+
+def environment_key(case, outcome):
+    # the second phase (other process environments): every command x family x policy once
+    family = (case.get('spec') or {}).get('family')
+    if case['part'] == 'extract':
+        return ('extract', case.get('policy'), 'mesh' if family == 'ugrid' else 'grid')
+    if case['part'] == 'grammar':
+        return ('grammar',)
+    return (case['part'], family, case.get('encoded'), case.get('slice'))
+
+
+ENVIRONMENTS_ON_REPRESENTATIVES_ONLY = True
 
 
 def cases(tier):
@@ -78,11 +93,12 @@ def cases(tier):
             fields[position] = FIELDS
             out.append({'part': 'grammar', 'f1': fields[0], 'f2': fields[1], 'f3': fields[2], 'f4': fields[3]})
     for spec in DATASETS:
-        out.append({'part': 'clip', 'spec': spec})
+        # the clip variants of one dataset are spread over CLIP_SLICES cases (they only share the source file)
+        out += [{'part': 'clip', 'spec': spec, 'slice': k} for k in range(CLIP_SLICES)]
         out.append({'part': 'export', 'spec': spec})
         if spec.get('holes') or spec.get('dry') or spec['family'] == 'ugrid':
             out.append({'part': 'export', 'spec': spec, 'encoded': True})
-            out.append({'part': 'clip', 'spec': spec, 'encoded': True})
+            out += [{'part': 'clip', 'spec': spec, 'encoded': True, 'slice': k} for k in range(CLIP_SLICES)]
         for length in ((1, 2) if tier == 'quick' else (1, 2, 3)):
             for policy in ('error', 'drop', 'fill'):
                 for first in ('hit', 'tie', 'miss', 'blank'):
@@ -270,6 +286,8 @@ def run_clip(case, rec):
             json.dump(mapping(inside), f)
         variants.append(('just-inside-a-cell:geojson-file', path, inside))
         for k, (label, argument, geometry) in enumerate(variants):
+            if k % CLIP_SLICES != case.get('slice', 0):
+                continue
             rec.nontrivial(label)
             cli_out = os.path.join(tmp, f'cli-{k}.nc')
             lib_out = os.path.join(tmp, f'lib-{k}.nc')
@@ -295,14 +313,14 @@ def run_clip(case, rec):
             rec.check(same, f"{fp}/differs-from-library", f"clip {label}: output differs from the library result", 'identical', why)
             dataset.close()
         # unreadable geometry: never a success, never an output file
-        for label, argument in (('bad-json', '{"type": "Polygon", "coordinates": [[1, 2]]}'), ('missing-file', os.path.join(tmp, 'nope.geojson')),
+        for label, argument in () if case.get('slice', 0) else (('bad-json', '{"type": "Polygon", "coordinates": [[1, 2]]}'), ('missing-file', os.path.join(tmp, 'nope.geojson')),
                                 ('five-numbers', '1,2,3,4,5'), ('not-geojson-file', source)):
             cli_out = os.path.join(tmp, f'bad-{label}.nc')
             status, message = run_cli(['clip', source, argument, cli_out])
             rec.nontrivial(label)
             rec.check(status != 0 and message.strip() != '' and not os.path.exists(cli_out), f"{fp}/bad-geometry-accepted/{label}",
                       f"clip with {label} geometry: status {status}", 'non-zero status, message, no output', [status, os.path.exists(cli_out)])
-    rec.outcome(['clip', case['spec']['family']])
+    rec.outcome(['clip', case['spec']['family'], case.get('slice', 0)])
 
 
 def run_export(case, rec):
